@@ -60,6 +60,10 @@ NOTES = {  # seed -> (after, what was strengthened)
  "C11e_m2": ("caught (C11 mypy; C01 signature correspondence)", "operations whose only non-path argument is the request body, behind defaulted path parameters"),
  "C12e_m1": ("caught (C12 stage A import_pool_keys_distinct + hash-seed oracle)", "NEW translator gen_imports.py: the pool of fixed import lines every property class can contribute; no two distinct lines share a case-insensitive sort key; every kind optional next to another optional property under 6 hash seeds"),
  "C19e_m2": ("caught (C19 oracle + Fs.build correspondence)", "existing output directories of every shape (empty, only dot files, only sub-directories, one file) without --overwrite"),
+ "C14e_m2": ("caught (C14 correspondence + oracle)", "Enums.enum_text (str / format of a member = text of its value; enum_text_str, enum_text_int); enums as parameters in all four locations, captured request vs document value"),
+ "C16e_m1": ("caught (C16 stage A docstring_literals_documented + stage C)", "regenerated table of every interpolation inside a triple-quoted template literal; hostile descriptions under docstrings_on_attributes off / on"),
+ "C16e_m2": ("caught (C16 stage A all_writers_encoded + stage C)", "regenerated table of every file writer and whether it passes file_encoding; every flavour x {cp1252, utf-16} against the utf-8 generation"),
+ "C20e_m2": ("caught (C20 oracle)", "a referenced component that FAILS after being referenced, in every reference position, by-reference vs inline, with healthy twins"),
  "C19c_m1": ("caught (C19 oracle + hook_cwd correspondence)", "post hooks: a marker hook that rewrites *.py below its working directory, all four flavours, with sentinel files around the output directory; Fs.hook_cwd"),
  "C10_m1": ("caught (C10 oracle, C02 correspondence)", "falsy-but-present values (0, \"\", false, {}, []) in the C02 atlas and the C10 grid"),
  "C10_m2": ("caught (C10 oracle; C15 caught it at once)", "allOf-refined required properties in the C10 grid"),
